@@ -31,7 +31,7 @@ type c18Place struct {
 }
 
 type c18Case struct {
-	History int        `json:"history"` // 0: period 1 on disk + period 2 in memory for every key; 1: keys 1,2 on disk, 3,4 in memory; 2: all in memory
+	History int        `json:"history"` // 0: period 1 on disk + period 2 in memory for every key; 1: keys 1,2 on disk, 3,4 in memory; 2: all in memory; 3: all on disk; 4: empty table
 	Mem     bool       `json:"mem"`
 	Places  []c18Place `json:"places"`
 }
@@ -71,6 +71,14 @@ func c18History(h int) ([]*rm.Pt, map[int]bool) {
 		for k := 3; k <= 4; k++ {
 			pts = append(pts, &rm.Pt{TS: 1 * sec, Dims: D("x", k), Vals: D("a", float64(k))}, &rm.Pt{TS: 2 * sec, Dims: D("x", k), Vals: D("a", float64(10*k))})
 		}
+	case 3:
+		// everything on disk, the memstore empty when the scan starts
+		for k := 1; k <= 4; k++ {
+			pts = append(pts, &rm.Pt{TS: 1 * sec, Dims: D("x", k), Vals: D("a", float64(k))}, &rm.Pt{TS: 2 * sec, Dims: D("x", k), Vals: D("a", float64(10*k))})
+		}
+		flushAfter[7] = true
+	case 4:
+		// nothing stored at all: file absent and memstore empty when the scan starts
 	default:
 		for k := 1; k <= 4; k++ {
 			pts = append(pts, &rm.Pt{TS: 2 * sec, Dims: D("x", k), Vals: D("a", float64(10*k))}, &rm.Pt{TS: 1 * sec, Dims: D("x", k), Vals: D("a", float64(k))})
@@ -280,13 +288,18 @@ func init() {
 		ID:          "C18",
 		Level:       "model_checking",
 		NoThreads:   true,
-		Rule:        "3 histories (period 1 on disk + period 2 in memory for 4 keys; keys split between disk and memory; memory only) × includeMemStore {true,false} × every placement of one (quick) / every ordered pair of (thorough) interfering events {insert into the next undelivered key at the same / a newer / an older period, insert into a delivered key, new key, FlushAll, insert+FlushAll, ApplySchema} at every position between the scan snapshot and the delivery of each key; every event runs to exact quiescence inside the scan's row callback; oracle: every delivered row equals the reference model at scan start; non-trivial = placement with at least one insert before the last delivery",
+		Rule:        "5 histories (period 1 on disk + period 2 in memory for 4 keys; keys split between disk and memory; memory only; everything on disk with an empty memstore; empty table) × includeMemStore {true,false} × every placement of one and every ordered pair (quick) / additionally every ordered triple (thorough) of interfering events {insert into the next undelivered key at the same / a newer / an older period, insert into a delivered key, new key, FlushAll, insert+FlushAll, ApplySchema} at every position between the scan snapshot and the delivery of each key; every event runs to exact quiescence inside the scan's row callback; oracle: every delivered row equals the reference model at scan start; non-trivial = placement with at least one insert before the last delivery",
 		Assumptions: []string{"the disk-only scan is a control: it must be just as stable", "positions are between keys: the flat rows of one key are derived from a single in-memory snapshot of that key"},
 		Shards:      func(tier string) int { return 8 },
-		Budget:      func(tier string) time.Duration { return 20 * time.Minute },
+		Budget: func(tier string) time.Duration {
+			if tier == "thorough" {
+				return 90 * time.Minute
+			}
+			return 20 * time.Minute
+		},
 		Run: func(c *fw.Ctx) {
 			var idx int64
-			for h := 0; h < 3; h++ {
+			for h := 0; h < 5; h++ {
 				for _, mem := range []bool{true, false} {
 					nkeys := 4
 					var places [][]c18Place
@@ -295,12 +308,18 @@ func init() {
 							places = append(places, []c18Place{{pos, ev}})
 						}
 					}
-					if c.Thorough() {
-						n := len(places)
-						for i := 0; i < n; i++ {
-							for j := 0; j < n; j++ {
-								if places[j][0].Pos >= places[i][0].Pos && i != j {
-									places = append(places, []c18Place{places[i][0], places[j][0]})
+					n := len(places)
+					for i := 0; i < n; i++ {
+						for j := 0; j < n; j++ {
+							if places[j][0].Pos >= places[i][0].Pos && i != j {
+								places = append(places, []c18Place{places[i][0], places[j][0]})
+								if !c.Thorough() {
+									continue
+								}
+								for k := 0; k < n; k++ {
+									if places[k][0].Pos >= places[j][0].Pos && k != j && k != i {
+										places = append(places, []c18Place{places[i][0], places[j][0], places[k][0]})
+									}
 								}
 							}
 						}
@@ -326,7 +345,7 @@ func init() {
 					}
 				}
 			}
-			c.R.Bound = "single placements (quick) / ordered pairs of placements (thorough)"
+			c.R.Bound = "single placements and ordered pairs (quick) / plus ordered triples (thorough)"
 		},
 		Replay: func(c *fw.Ctx, raw json.RawMessage) {
 			var cs c18Case
